@@ -94,7 +94,13 @@ def uts_program(total, eps):
 
 def smt_program(b1, b2, interval):
     def prog(ctx):
-        w, ts, buf, res = L.run_smt(ctx, b1, b2, interval)
+        try:
+            w, ts, buf, res = L.run_smt(ctx, b1, b2, interval)
+        except E.PathAbort:
+            raise
+        except Exception as ex:  # the scheduler itself fails (e.g. its step counter overshoots the stage budget)
+            ctx.log.append(f"train_smt raised {type(ex).__name__}: {ex}")
+            ctx.check(False, "scheduler-completes-with-consistent-step-accounting")
         result_st, training_steps, perf = res
         executed = [e.n_steps for e in ts.envs_]
         ctx.check(sum(executed) <= b1 + b2, "scheduler-never-exceeds-the-total-budget")
